@@ -12,21 +12,23 @@ import (
 	"github.com/docker/docker/api/types"
 	apicontainer "github.com/docker/docker/api/types/container"
 	"github.com/docker/docker/client"
+	"github.com/docker/docker/errdefs"
 )
 
 // fakeContainer describes one container of the fake daemon. All strings are base64 in JSON.
 type fakeContainer struct {
-	ID       string      `json:"id"`
-	Names    []string    `json:"names"`
-	Image    string      `json:"image"`
-	ImageID  string      `json:"image_id"`
-	Command  string      `json:"command"`
-	State    string      `json:"state"`
-	Status   string      `json:"status"`
-	Created  int64       `json:"created"`
-	Labels   [][2]string `json:"labels"`
-	Events   []evt       `json:"events"`
-	OpenFail bool        `json:"open_fail"`
+	ID            string      `json:"id"`
+	Names         []string    `json:"names"`
+	Image         string      `json:"image"`
+	ImageID       string      `json:"image_id"`
+	Command       string      `json:"command"`
+	State         string      `json:"state"`
+	Status        string      `json:"status"`
+	Created       int64       `json:"created"`
+	Labels        [][2]string `json:"labels"`
+	Events        []evt       `json:"events"`
+	OpenFail      bool        `json:"open_fail"`
+	OpenFailClass string      `json:"open_fail_class"`
 }
 
 type fakeDocker struct {
@@ -196,6 +198,18 @@ func (f *fakeDocker) ContainerLogs(ctx context.Context, id string, options apico
 	}
 	c := f.containers[idx]
 	if c.OpenFail {
+		switch c.OpenFailClass {
+		case "notfound":
+			return nil, errdefs.NotFound(errOpenInjected)
+		case "unavailable":
+			return nil, errdefs.Unavailable(errOpenInjected)
+		case "eof":
+			return nil, io.EOF
+		case "ueof":
+			return nil, io.ErrUnexpectedEOF
+		case "canceled":
+			return nil, context.Canceled
+		}
 		return nil, errOpenInjected
 	}
 	rd := &evReader{evs: append([]evt(nil), c.Events...), cid: c.ID, ctx: ctx}
